@@ -375,6 +375,9 @@ class MultiStream(Stream):
         streams = self._streams
         if phase in streams:
             stream = streams[phase]
+            imol = self._imol
+            if stream._imol.data is not imol.data.rows[imol.get_phase_index(phase)]:
+                stream._imol = imol.get_phase(phase) # The phases were expanded: `phase` now names another row
         else:
             stream = Stream.__new__(Stream)
             stream._ID = stream._sink = stream._source = None
